@@ -138,6 +138,16 @@ class LocExpr(object):
         return '%s(%s%s)' % (self.kind, self.path, ', %r' % (self.extra,) if self.extra else '')
 
 
+class LocPart(object):
+    """One component (0 = line, 1 = column) of a summarised location."""
+    def __init__(self, loc, index):
+        self.loc = loc
+        self.index = index
+
+    def __repr__(self):
+        return '%r[%d]' % (self.loc, self.index)
+
+
 class SymNode(object):
     def __init__(self, cls, path, sort, fields=None):
         self.cls = cls            # grammar class name or None (opaque)
@@ -295,6 +305,8 @@ class Interp(object):
         self.sys_modules = None       # a concrete dict replaces the symbolic sys.modules when set
         self._class_attr_values = {}
         self.mtimes = None            # path -> modification time, for os.path.getmtime
+        self.import_overrides = {}    # (module, name) -> value bound by a function-level import
+        self.files = None             # path -> text, for open(path).read()
         self.fs_dirs = None           # directory -> listing, for os.listdir
         self.memoise_cached = False
         self.nodevisitor_model = False
@@ -364,7 +376,7 @@ class Interp(object):
                 local = a.asname or a.name.split('.')[0]
                 if a.name == 'logging':
                     env[local] = NullLogger()
-                elif a.name in ('sys', 'string', 'builtins', 'os', 'os.path', 're'):
+                elif a.name in ('sys', 'string', 'builtins', 'os', 'os.path', 're', 'struct', 'io', 'errno'):
                     env[local] = NativeModule(a.name.split('.')[0], __import__(a.name.split('.')[0]))
                 else:
                     env[local] = Unknown('module ' + a.name)
@@ -744,7 +756,8 @@ class Interp(object):
         args = [self.iterate(a) if isinstance(a, Obj) and a.cls.lookup('__iter__') is not None
                 and attr in ('update', 'extend', 'difference', 'union') else a for a in args]
         if isinstance(v, (list, set, dict)) and attr in ('append', 'add', 'extend', 'update', 'insert',
-                                                          'setdefault', 'remove', 'clear', 'pop', 'copy',
+                                                          'setdefault', 'remove', 'clear', 'pop', 'copy', 'discard',
+                                                          'intersection', 'issubset', 'issuperset', 'count', 'popitem',
                                                           'get', 'items', 'keys', 'values', 'index',
                                                           'difference', 'union', 'sort'):
             r = getattr(v, attr)(*args, **kwargs)
@@ -942,6 +955,19 @@ class Interp(object):
         if self.fs is not None:
             return str(args[0]) in self.fs
         return self.decide(('exists', str(args[0])))
+
+    def nat_open(self, args, kwargs):
+        self.effect('open', args[0])
+        if self.files is None:
+            raise Uninterpretable('open() without a modelled file system')
+        path = str(args[0])
+        if path not in self.files:
+            raise InterpRaise('FileNotFoundError', path)
+        text = self.files[path]
+        ci = self.facts.classes.get('Unresolved') or next(iter(self.facts.classes.values()))
+        return Obj(ci, {'read': Native('read', lambda it, a, k: text), 'close': Native('close', lambda it, a, k: None),
+                        '__enter__': Native('__enter__', lambda it, a, k: None), '__exit__': Native('__exit__', lambda it, a, k: False)},
+                   'file ' + path)
 
     def nat_listdir(self, args, kwargs):
         self.effect('listdir', args[0])
@@ -1248,6 +1274,8 @@ class Interp(object):
                 return v[lo:hi]
             raise Uninterpretable('slice of %r' % (v,))
         i = self.index_value(self.eval(e.slice, f))
+        if isinstance(v, LocExpr) and i in (0, 1):
+            return LocPart(v, i)
         if isinstance(v, (list, tuple, str, bytes)):
             if not isinstance(i, int):
                 raise Uninterpretable('index %r' % (i,))
@@ -1393,9 +1421,12 @@ class Interp(object):
         elif isinstance(t, ast.Subscript):
             c = self.eval(t.value, f)
             if isinstance(t.slice, ast.Slice):
-                if isinstance(c, list) and t.slice.lower is None and t.slice.upper is None:
-                    c[:] = self.iterate(v)
-                    return
+                if isinstance(c, list) and t.slice.step is None:
+                    lo = self.eval(t.slice.lower, f) if t.slice.lower is not None else None
+                    hi = self.eval(t.slice.upper, f) if t.slice.upper is not None else None
+                    if (lo is None or isinstance(lo, int)) and (hi is None or isinstance(hi, int)):
+                        c[lo:hi] = self.iterate(v)
+                        return
                 raise Uninterpretable('slice assignment')
             i = self.eval(t.slice, f)
             if isinstance(c, (list, dict)):
@@ -1501,11 +1532,13 @@ class Interp(object):
 
     def s_Import(self, st, f):
         for a in st.names:
-            f.store(a.asname or a.name.split('.')[0], Unknown('module ' + a.name))
+            ov = self.import_overrides.get((a.name, None))
+            f.store(a.asname or a.name.split('.')[0], ov if ov is not None else Unknown('module ' + a.name))
 
     def s_ImportFrom(self, st, f):
         for a in st.names:
-            f.store(a.asname or a.name, Unknown('import ' + a.name))
+            ov = self.import_overrides.get((st.module or '', a.name))
+            f.store(a.asname or a.name, ov if ov is not None else Unknown('import ' + a.name))
 
     def exc_matches(self, exc_name, handler):
         if exc_name == handler or handler == 'BaseException':
